@@ -357,7 +357,7 @@ Definition read_length (tb : Z) (s : list ch) (ln : Z) : res (option tok * list 
       do r <- read_arg_int_array tb s1 ln; let '(ia, s2, ln2) := r in Ok (Some (TOnNote Reserve.WL false ia), s2, ln2)
     else if is_w cmd "onCycle" "C" then
       do r <- read_arg_int_array tb s1 ln; let '(ia, s2, ln2) := r in Ok (Some (TOnNote Reserve.WL true ia), s2, ln2)
-    else plain s1 ln
+    else plain s ln      (* not a reservation: `cur.index = dot_index`, the dot (and the word) belong to what follows: "l." = the dotted default length *)
   else plain s ln).
 
 (* the common tail of read_octave / read_qlen / read_velocity / read_timing *)
@@ -563,7 +563,7 @@ Definition check_variables (ls : lexstate) (cmd : list ch) (s : list ch) (ln : Z
             Ok (Some (TValue cmd (Some vs) ln3), s3, ln3, ls')
           else Ok (Some (TValue cmd None 0), s2, ln2, ls)
       | Some _ => Unsupported U_VAR
-      | None => Ok (None, s1, ln1, read_error_cmd ls s1 ln1 cmd)
+      | None => Ok (None, s1, ln1, read_error_cmd ls s1 ln cmd)     (* reported on the line of the word *)
       end.
 
 (* read_command_rhythm: letters with a rhythm definition are replaced by it, "(...)" spans are copied without
